@@ -185,6 +185,17 @@ def gen_restrict_case(rng, tier):
   case = {"kind": "restrict", "box": poly["box"], "cons": poly["cons"], "rho": poly["rho"], "style": poly["style"],
           "pts": gen_points(rng, poly, n), "viable": viable, "viable_kind": vk, "onC": rng.random() < 0.5,
           "npseed": rng.randrange(2 ** 31), "fixed": None}
+  if rng.random() < 0.2 and len(poly["box"]) >= 2:
+    # an earlier, different constraint set on the same box (same construction around another interior point)
+    other = gen_polytope(rng, len(poly["box"]), rng.randint(1, 3))
+    # re-anchor the other set's constraints to THIS box: keep the weights, choose the rhs so that this box's centre is strictly inside
+    ctr = [(l + h) / 2 for l, h in poly["box"]]
+    pc = []
+    for c in other["cons"]:
+      val = sum(wi * xi for wi, xi in zip(c["w"], ctr))
+      span = sum(abs(wi) * (h - l) for wi, (l, h) in zip(c["w"], poly["box"]))
+      pc.append({"w": list(c["w"]), "rhs": val - 0.2 * span})
+    case["prior_cons"] = pc
   if rng.random() < 0.25:
     free = unconstrained_indices(poly)
     if free:
@@ -316,8 +327,24 @@ def box_json(box):
 def make_domain(case):
   from libsigopt.compute.domain import ContinuousDomain
   dom = ContinuousDomain(numpy.array(case["box"], dtype=float))
+  prior = case.get("prior_cons")
+  if prior:
+    # the same domain object first carried another constraint set and was used with it (projection, perturbation):
+    # nothing remembered from then may survive set_constraint_list
+    try:
+      dom.set_constraint_list([{"weights": numpy.array(c["w"], dtype=float), "rhs": float(c["rhs"])} for c in prior])
+      box_ = numpy.array(case["box"], dtype=float)
+      probe = numpy.vstack([box_[:, 0], box_[:, 1], 0.5 * (box_[:, 0] + box_[:, 1]), box_[:, 0] - 1.0, box_[:, 1] + 1.0])
+      st_ = numpy.random.get_state()
+      dom.restrict_points_to_domain(probe, on_constraint=True)
+      dom.restrict_points_to_domain(probe, on_constraint=False)
+      numpy.random.set_state(st_)
+    except AssertionError:
+      dom = ContinuousDomain(numpy.array(case["box"], dtype=float))   # the earlier set was too thin for the library: start fresh
   if case["cons"]:
     dom.set_constraint_list([{"weights": numpy.array(c["w"], dtype=float), "rhs": float(c["rhs"])} for c in case["cons"]])
+  elif prior:
+    dom.set_constraint_list([])
   return dom
 
 
